@@ -1,5 +1,6 @@
 import Svgbob.Proofs.Independence
 import Svgbob.Proofs.MoveAll2
+import Svgbob.Proofs.Forest
 /-!
 # C10 — separated sub-diagrams render independently of each other
 
@@ -10,9 +11,10 @@ keeps its absolute coordinates, so "shifted to its place" is built in). The proo
 the locality theorem of the greedy merge loop (`G.mergeRec_filter_inv`): spans never merge
 across the blank line, so the spans of one side are those of that side's cells alone, and every
 later stage works span by span.
-The last stage (containment forest: document order and `{tag}` classes) is order sensitive and is
-not part of this theorem; the property's inputs are tag-free, and the oracle compares element
-multisets of the implementation's output.
+The last stage (containment forest: document order and `{tag}` classes) is order sensitive; for
+tag-free input it only reorders (`last_stage_only_reorders`, `last_stage_respects_permutations`),
+so the multiset statement carries through to the elements of the document. The property's inputs
+are tag-free, and the oracle compares element multisets of the implementation's output.
 -/
 namespace Svgbob.C10
 open Svgbob
@@ -76,6 +78,24 @@ theorem juxtaposition_is_union (len : List Char → Nat) (cat : Catalogue) (ax :
     exact this
   exact endorseAll_independent len cat ax t _ hsep F FA _ G GA _ h (by rw [hfl]; exact hA)
     (by rw [hfh]; exact hBs)
+
+/-- **the last stage only reorders** (tag-free input): the nodes `fragments_to_node` emits for a
+list of fragments none of which reads as a `{tag}` are a permutation of the nodes of those
+fragments. Together with `endorsement_independent` (the fragments of a juxtaposition are the
+fragments of the parts) the elements of the whole drawing are, as a multiset, the elements of its
+parts. -/
+theorem last_stage_only_reorders (len : List Char → Nat) (k : Int) (frags : List Frag)
+    (h : ∀ f ∈ frags, (f.scale 1).asCssTag = []) :
+    (fragmentsToNodes len k frags).Perm (frags.map fun f => plainNode k (f.scale 1)) :=
+  fragmentsToNodes_perm len k frags h
+
+/-- …so two fragment lists that are permutations of each other give permutations of the same nodes -/
+theorem last_stage_respects_permutations (len : List Char → Nat) (k : Int) (F F' : List Frag)
+    (hperm : F.Perm F') (h : ∀ f ∈ F, (f.scale 1).asCssTag = []) :
+    (fragmentsToNodes len k F).Perm (fragmentsToNodes len k F') := by
+  have h' : ∀ f ∈ F', (f.scale 1).asCssTag = [] := fun f hf => h f (hperm.mem_iff.mpr hf)
+  exact (fragmentsToNodes_perm len k F h).trans
+    ((hperm.map _).trans (fragmentsToNodes_perm len k F' h').symm)
 
 /-! Non-vacuity: two cells two columns apart satisfy the separation hypothesis for `t = 0`. -/
 example : ∀ cc ∈ ([(⟨0, 0⟩, 'a'), (⟨2, 0⟩, 'b')] : Span),
